@@ -404,4 +404,325 @@ theorem saturation_range (p : Mat32.V3) (hp : Unit3 p) (hw : Wf3 p) :
     · rw [vmn, f1.2]; exact le_min q0 (by norm_num)
     · rw [vmn, f1.2]; exact min_le_right _ _
 
+theorem comp_bounds (x y z : ℝ) : (mn x y z ≤ x ∧ x ≤ mx x y z) ∧ (mn x y z ≤ y ∧ y ≤ mx x y z) ∧ (mn x y z ≤ z ∧ z ≤ mx x y z) := by
+  unfold mx mn
+  refine ⟨⟨le_trans (min_le_left _ _) (min_le_left _ _), le_trans (le_max_left _ _) (le_max_left _ _)⟩,
+    ⟨le_trans (min_le_left _ _) (min_le_right _ _), le_trans (le_max_right _ _) (le_max_left _ _)⟩, ⟨min_le_right _ _, le_max_right _ _⟩⟩
+
+/-- the chroma `c = max - min` as computed, when it passes the `|c| ≥ EPSILON` guard -/
+theorem chroma_pos (cM cm : Nat) (wm : WF cm) (fM : Finite cM) (fm : Finite cm) (Mx Mn : ℝ) (vM : toReal cM = Mx) (vm : toReal cm = Mn)
+    (h01 : 0 ≤ Mn ∧ Mn ≤ Mx ∧ Mx ≤ 1) (hg : F32.lt (F32.abs (F32.sub cM cm)) EPSILON = false) :
+    Finite (F32.sub cM cm) ∧ 1 / 16777216 ≤ Mx - Mn ∧ |toReal (F32.sub cM cm) - (Mx - Mn)| ≤ 6 / 100000000 * (Mx - Mn) + 1 / 10 ^ 40 ∧ 0 < toReal (F32.sub cM cm) := by
+  have hfit : |toReal cM - toReal cm| < (2:ℝ) ^ (127:ℤ) := fit1 _ (by rw [vM, vm, abs_le]; constructor <;> linarith [h01.1, h01.2.1, h01.2.2])
+  obtain ⟨fc, ec⟩ := sub_val cM cm wm fM fm hfit
+  rw [vM, vm] at ec
+  obtain ⟨fac, vac⟩ := toReal_abs (F32.sub cM cm) (add_wf _ _) fc
+  have hE : EPSILON = 0x34000000 := rfl
+  rw [hE] at hg
+  have hge : ¬ (toReal (F32.abs (F32.sub cM cm)) < toReal (0x34000000 : Nat)) := fun h => by
+    have h2 := (lt_iff _ _ fac c_eps.1).mpr h; rw [hg] at h2; exact Bool.false_ne_true h2
+  rw [vac, c_eps.2] at hge
+  push Not at hge
+  have hC0 : 0 ≤ Mx - Mn := by linarith [h01.2.1]
+  rw [abs_of_nonneg hC0] at ec
+  have hu := u_val; have he := eta_le; have he0 := eta_pos
+  rw [hu] at ec
+  have h3 := abs_sub_abs_le_abs_sub (toReal (F32.sub cM cm)) (Mx - Mn)
+  rw [abs_of_nonneg hC0] at h3
+  have hClo : 1 / 16777216 ≤ Mx - Mn := by
+    by_contra hc; push Not at hc
+    nlinarith
+  obtain ⟨e1, e2⟩ := abs_le.mp ec
+  refine ⟨fc, hClo, ?_, by nlinarith⟩
+  rw [abs_le]; constructor <;> nlinarith
+
+/-- one hue quotient `(a - b) / c` with `a, b` between min and max: finite and of magnitude at most 1.000001 -/
+theorem hue_term (a b c : Nat) (wb : WF b) (fa : Finite a) (fb : Finite b) (fc : Finite c) (Mx Mn : ℝ)
+    (ha : Mn ≤ toReal a ∧ toReal a ≤ Mx) (hb : Mn ≤ toReal b ∧ toReal b ≤ Mx) (hC : 1 / 16777216 ≤ Mx - Mn) (hMx : Mx - Mn ≤ 1)
+    (hc : |toReal c - (Mx - Mn)| ≤ 6 / 100000000 * (Mx - Mn) + 1 / 10 ^ 40) :
+    Finite (F32.div (F32.sub a b) c) ∧ |toReal (F32.div (F32.sub a b) c)| ≤ 1000001 / 1000000 := by
+  have hab : |toReal a - toReal b| ≤ Mx - Mn := by rw [abs_le]; constructor <;> linarith [ha.1, ha.2, hb.1, hb.2]
+  obtain ⟨fn, en⟩ := sub_val a b wb fa fb (fit1 _ (by linarith))
+  have hu := u_val; have he := eta_le; have he0 := eta_pos
+  have h1 : u * |toReal a - toReal b| ≤ u * (Mx - Mn) := mul_le_mul_of_nonneg_left hab u_pos.le
+  rw [hu] at h1 en
+  set N := toReal (F32.sub a b)
+  set cc := toReal c
+  set Cr := Mx - Mn
+  have hN : |N| ≤ Cr * (1 + 6 / 100000000) + 1 / 10 ^ 40 := by
+    have := abs_sub_abs_le_abs_sub N (toReal a - toReal b); linarith
+  obtain ⟨c1, c2⟩ := abs_le.mp hc
+  have hcpos : 0 < cc := by nlinarith
+  have hcc : Cr * (1 - 7 / 100000000) ≤ cc := by nlinarith
+  have hq : |N / cc| ≤ 1 + 2 / 10000000 := by
+    rw [abs_div, abs_of_pos hcpos, div_le_iff₀ hcpos]
+    nlinarith
+  have hqfit : |N / cc| ≤ (2:ℝ) ^ (126:ℤ) := by
+    have : (2:ℝ) ^ (1:ℤ) ≤ (2:ℝ) ^ (126:ℤ) := zpow_le_zpow_right₀ (by norm_num) (by norm_num)
+    refine le_trans hq (le_trans (by norm_num) this)
+  obtain ⟨fd, ed⟩ := div_val (F32.sub a b) c fn fc hcpos.ne' hqfit
+  refine ⟨fd, ?_⟩
+  have hud : ud ≤ 61 / 1000000000 := by unfold ud; rw [hu]; norm_num
+  have hud0 := ud_pos
+  have := abs_sub_abs_le_abs_sub (toReal (F32.div (F32.sub a b) c)) (N / cc)
+  have h2 : ud * |N / cc| ≤ 61 / 1000000000 * (1 + 2 / 10000000) := mul_le_mul hud hq (abs_nonneg _) (by norm_num)
+  linarith
+
+/-- `60 * (k + d)` for `k` in {0, 2, 4} (as a finite float of magnitude at most 4) and `|d| ≤ 1.000001`: finite, magnitude at most 301 -/
+theorem hue_scale (k d : Nat) (fk : Finite k) (hk : |toReal k| ≤ 4) (fd : Finite d) (hd : |toReal d| ≤ 1000001 / 1000000) :
+    Finite (F32.mul 0x42700000 (F32.add k d)) ∧ |toReal (F32.mul 0x42700000 (F32.add k d))| ≤ 301 := by
+  have hu := u_val; have he := eta_le; have he0 := eta_pos
+  obtain ⟨b1, _⟩ := add_bnd k d 4 (1000001 / 1000000) ⟨fk, hk⟩ ⟨fd, hd⟩ (fit_small _ (by norm_num))
+  have hb1 : (4 + 1000001 / 1000000) * (1 + u) + eta ≤ 50001 / 10000 := by rw [hu]; nlinarith
+  obtain ⟨b2, _⟩ := mul_bnd 0x42700000 (F32.add k d) 60 (50001 / 10000) ⟨c_sixty.1, by rw [c_sixty.2]; norm_num⟩ ⟨b1.1, le_trans b1.2 hb1⟩ (fit_small _ (by norm_num))
+  refine ⟨b2.1, le_trans b2.2 ?_⟩
+  rw [hu]; nlinarith
+
+theorem hue_scale0 (d : Nat) (fd : Finite d) (hd : |toReal d| ≤ 1000001 / 1000000) :
+    Finite (F32.mul 0x42700000 d) ∧ |toReal (F32.mul 0x42700000 d)| ≤ 301 := by
+  have hu := u_val; have he := eta_le; have he0 := eta_pos
+  obtain ⟨b2, _⟩ := mul_bnd 0x42700000 d 60 (1000001 / 1000000) ⟨c_sixty.1, by rw [c_sixty.2]; norm_num⟩ ⟨fd, hd⟩ (fit_small _ (by norm_num))
+  refine ⟨b2.1, le_trans b2.2 ?_⟩
+  rw [hu]; nlinarith
+
+/-- the two wrap-around steps: a finite raw hue of magnitude at most 301 ends in [0, 360) -/
+theorem hue_wrap (h0 : Nat) (f0 : Finite h0) (b0 : |toReal h0| ≤ 301) :
+    let h1 := if F32.lt h0 0 then F32.add h0 0x43b40000 else h0
+    let h2 := if F32.ge h1 0x43b40000 then 0 else h1
+    Finite h2 ∧ 0 ≤ toReal h2 ∧ toReal h2 < 360 := by
+  intro h1 h2
+  obtain ⟨p0, q0⟩ := abs_le.mp b0
+  have f360 := c_360; have fz := c_zero
+  have hh1 : Finite h1 ∧ 0 ≤ toReal h1 := by
+    show Finite (if F32.lt h0 0 then F32.add h0 0x43b40000 else h0) ∧ 0 ≤ toReal (if F32.lt h0 0 then F32.add h0 0x43b40000 else h0)
+    split
+    · have hfit : |toReal h0 + toReal (0x43b40000 : Nat)| < (2:ℝ) ^ (127:ℤ) := fit1 _ (by rw [f360.2, abs_le]; constructor <;> linarith)
+      refine ⟨(add_val h0 0x43b40000 f0 f360.1 hfit).1, ?_⟩
+      have := add_ge h0 0x43b40000 0 f0 f360.1 fz.1 hfit (by rw [fz.2]; simp) (by rw [fz.2, f360.2]; linarith)
+      rw [fz.2] at this; exact this
+    · rename_i hn
+      refine ⟨f0, ?_⟩
+      by_contra hc; push Not at hc
+      exact hn ((lt_iff h0 0 f0 fz.1).mpr (by rw [fz.2]; exact hc))
+  show Finite (if F32.ge h1 0x43b40000 then 0 else h1) ∧ 0 ≤ toReal (if F32.ge h1 0x43b40000 then 0 else h1) ∧ toReal (if F32.ge h1 0x43b40000 then 0 else h1) < 360
+  split
+  · exact ⟨fz.1, by rw [fz.2], by rw [fz.2]; norm_num⟩
+  · rename_i hn
+    refine ⟨hh1.1, hh1.2, ?_⟩
+    by_contra hc; push Not at hc
+    exact hn ((ge_iff h1 0x43b40000 hh1.1 f360.1).mpr (by rw [f360.2]; exact hc))
+
+set_option maxHeartbeats 2000000 in
+/-- **hue range**: H is finite and lies in [0, 360) -/
+theorem hue_range (p : Mat32.V3) (hp : Unit3 p) (hw : Wf3 p) :
+    Finite (lrgbToHsl p).x ∧ 0 ≤ toReal (lrgbToHsl p).x ∧ toReal (lrgbToHsl p).x < 360 := by
+  obtain ⟨fM, fm, vM, vm⟩ := maxmin p hp
+  obtain ⟨b0, b1, b2⟩ := mx_mn_bounds _ _ _ hp.bx hp.bY hp.bz
+  obtain ⟨cx, cy, cz⟩ := comp_bounds (toReal p.x) (toReal p.y) (toReal p.z)
+  set xmax := F32.max (F32.max p.x p.y) p.z
+  set xmin := F32.min (F32.min p.x p.y) p.z
+  have wmin : WF xmin := min_wf _ _ (min_wf _ _ hw.wx hw.wy) hw.wz
+  set Mx := mx (toReal p.x) (toReal p.y) (toReal p.z)
+  set Mn := mn (toReal p.x) (toReal p.y) (toReal p.z)
+  set c := F32.sub xmax xmin with hc
+  -- the raw hue
+  have hraw : ∃ h0, F32.Finite h0 ∧ |toReal h0| ≤ 301 ∧ (lrgbToHsl p).x =
+      (let h1 := if F32.lt h0 0 then F32.add h0 0x43b40000 else h0; if F32.ge h1 0x43b40000 then 0 else h1) := by
+    have hx : (lrgbToHsl p).x =
+      (let h0 := if F32.lt (F32.abs c) EPSILON then 0
+        else if F32.lt (F32.abs (F32.sub xmax p.x)) EPSILON then F32.mul 0x42700000 (F32.div (F32.sub p.y p.z) c)
+        else if F32.lt (F32.abs (F32.sub xmax p.y)) EPSILON then F32.mul 0x42700000 (F32.add 0x40000000 (F32.div (F32.sub p.z p.x) c))
+        else F32.mul 0x42700000 (F32.add 0x40800000 (F32.div (F32.sub p.x p.y) c));
+       let h1 := if F32.lt h0 0 then F32.add h0 0x43b40000 else h0; if F32.ge h1 0x43b40000 then 0 else h1) := rfl
+    rw [hx]
+    by_cases hg : F32.lt (F32.abs c) EPSILON = true
+    · refine ⟨0, c_zero.1, by rw [c_zero.2]; norm_num, ?_⟩
+      simp only [hg, if_true]
+    · have hg' : F32.lt (F32.abs c) EPSILON = false := by simpa using hg
+      obtain ⟨fc, hClo, hce, _⟩ := chroma_pos xmax xmin wmin fM fm Mx Mn vM vm ⟨b0, b1, b2⟩ hg'
+      have hC1 : Mx - Mn ≤ 1 := by linarith
+      obtain ⟨f1, d1⟩ := hue_term p.y p.z c hw.wz hp.fy hp.fz fc Mx Mn cy cz hClo hC1 hce
+      obtain ⟨f2, d2⟩ := hue_term p.z p.x c hw.wx hp.fz hp.fx fc Mx Mn cz cx hClo hC1 hce
+      obtain ⟨f3, d3⟩ := hue_term p.x p.y c hw.wy hp.fx hp.fy fc Mx Mn cx cy hClo hC1 hce
+      simp only [hg', Bool.false_eq_true, if_false]
+      by_cases g2 : F32.lt (F32.abs (F32.sub xmax p.x)) EPSILON = true
+      · obtain ⟨fh, bh⟩ := hue_scale0 _ f1 d1
+        exact ⟨_, fh, bh, by simp only [g2, if_true]⟩
+      · have g2' : F32.lt (F32.abs (F32.sub xmax p.x)) EPSILON = false := by simpa using g2
+        simp only [g2', Bool.false_eq_true, if_false]
+        by_cases g3 : F32.lt (F32.abs (F32.sub xmax p.y)) EPSILON = true
+        · obtain ⟨fh, bh⟩ := hue_scale 0x40000000 _ c_two.1 (by rw [c_two.2]; norm_num) f2 d2
+          exact ⟨_, fh, bh, by simp only [g3, if_true]⟩
+        · have g3' : F32.lt (F32.abs (F32.sub xmax p.y)) EPSILON = false := by simpa using g3
+          obtain ⟨fh, bh⟩ := hue_scale 0x40800000 _ c_four.1 (by rw [c_four.2]; norm_num) f3 d3
+          exact ⟨_, fh, bh, by simp only [g3', Bool.false_eq_true, if_false]⟩
+  obtain ⟨h0, f0, bh0, hx⟩ := hraw
+  rw [hx]
+  exact hue_wrap h0 f0 bh0
+
+/-- hexcone saturation of a real pixel -/
+noncomputable def specS (x y z : ℝ) : ℝ := (mx x y z - mn x y z) / (1 - |2 * specL x y z - 1|)
+
+set_option maxHeartbeats 4000000 in
+/-- **saturation accuracy**: for 0.01 ≤ L ≤ 0.99 (exact lightness) S is within 1e-4 of (max-min)/(1-|2L-1|) -/
+theorem saturation_accurate (p : Mat32.V3) (hp : Unit3 p) (hL : 1 / 100 ≤ specL (toReal p.x) (toReal p.y) (toReal p.z) ∧ specL (toReal p.x) (toReal p.y) (toReal p.z) ≤ 99 / 100) :
+    |toReal (lrgbToHsl p).y - specS (toReal p.x) (toReal p.y) (toReal p.z)| ≤ 1 / 10000 := by
+  obtain ⟨fL, L0, L1, eL⟩ := lightness p hp
+  obtain ⟨fM, fm, vM, vm⟩ := maxmin p hp
+  obtain ⟨b0, b1, b2⟩ := mx_mn_bounds _ _ _ hp.bx hp.bY hp.bz
+  set xmax := F32.max (F32.max p.x p.y) p.z
+  set xmin := F32.min (F32.min p.x p.y) p.z
+  have hlz : (lrgbToHsl p).z = div (add xmax xmin) 0x40000000 := rfl
+  rw [hlz] at fL L0 L1 eL
+  set l := div (add xmax xmin) 0x40000000 with hl
+  have wl : WF l := div_wf _ _
+  have hs : (lrgbToHsl p).y = (if (F32.lt (F32.abs l) EPSILON || F32.lt (F32.abs (F32.sub l 0x3f800000)) EPSILON) then 0
+      else F32.min (F32.div (F32.mul 0x40000000 (F32.sub xmax l)) (F32.sub 0x3f800000 (F32.abs (F32.fma 0x40000000 l (F32.neg 0x3f800000))))) 0x3f800000) := rfl
+  rw [hs]
+  have f0 := c_zero; have f1 := c_one; have f2 := c_two; have fe := c_eps; have fn1 := neg_one
+  have hE : EPSILON = 0x34000000 := rfl
+  have hu := u_val; have he := eta_le; have he0 := eta_pos
+  set Mx := mx (toReal p.x) (toReal p.y) (toReal p.z)
+  set Mn := mn (toReal p.x) (toReal p.y) (toReal p.z)
+  set Ls := specL (toReal p.x) (toReal p.y) (toReal p.z) with hLs
+  have hLsd : Ls = (Mx + Mn) / 2 := rfl
+  set L := toReal l
+  obtain ⟨el1, el2⟩ := abs_le.mp eL
+  -- guards are false
+  obtain ⟨fal, val⟩ := toReal_abs l wl fL
+  have g1 : F32.lt (F32.abs l) EPSILON = false := by
+    rw [hE]; by_contra hc
+    have hc' : F32.lt (F32.abs l) 0x34000000 = true := by simpa using hc
+    have := (lt_iff _ _ fal fe.1).mp hc'
+    rw [val, fe.2, abs_of_nonneg L0] at this; linarith [hL.1]
+  have w1 : WF (0x3f800000 : Nat) := by unfold WF; norm_num
+  obtain ⟨fs1, es1⟩ := sub_val l 0x3f800000 w1 fL f1.1 (fit1 _ (by rw [f1.2, abs_le]; constructor <;> linarith))
+  obtain ⟨fas1, vas1⟩ := toReal_abs (F32.sub l 0x3f800000) (add_wf _ _) fs1
+  have g2 : F32.lt (F32.abs (F32.sub l 0x3f800000)) EPSILON = false := by
+    rw [hE]; by_contra hc
+    have hc' : F32.lt (F32.abs (F32.sub l 0x3f800000)) 0x34000000 = true := by simpa using hc
+    have := (lt_iff _ _ fas1 fe.1).mp hc'
+    rw [vas1, fe.2] at this
+    rw [f1.2] at es1
+    have h1 : |L - 1| ≤ 1 := by rw [abs_le]; constructor <;> linarith
+    have h2 : u * |L - 1| ≤ u * 1 := mul_le_mul_of_nonneg_left h1 u_pos.le
+    rw [hu] at h2 es1
+    have h3 := abs_sub_abs_le_abs_sub (L - 1) (toReal (F32.sub l 0x3f800000))
+    rw [abs_sub_comm (L - 1) _] at h3
+    have h4 : |L - 1| = 1 - L := by rw [abs_of_nonpos (by linarith)]; ring
+    rw [h4] at h3
+    linarith [hL.2]
+  simp only [g1, g2, Bool.or_self, Bool.false_eq_true, if_false]
+  -- t = fma 2 l (-1)
+  have hfitt : |toReal (0x40000000 : Nat) * L + toReal (F32.neg 0x3f800000)| < (2:ℝ) ^ (127:ℤ) :=
+    fit1 _ (by rw [f2.2, fn1.2, abs_le]; constructor <;> linarith)
+  obtain ⟨ft, et⟩ := fma_val 0x40000000 l (F32.neg 0x3f800000) f2.1 fL fn1.1 hfitt
+  rw [f2.2, fn1.2] at et
+  set t := F32.fma 0x40000000 l (F32.neg 0x3f800000)
+  have ht1 : |2 * L + -1| ≤ 1 := by rw [abs_le]; constructor <;> linarith
+  have ht2 : u * |2 * L + -1| ≤ u * 1 := mul_le_mul_of_nonneg_left ht1 u_pos.le
+  rw [hu] at ht2 et
+  obtain ⟨fat, vat⟩ := toReal_abs t (fma_wf _ _ _) ft
+  -- |t| vs |2 Ls - 1|
+  have hTt : |toReal t - (2 * Ls - 1)| ≤ 33 / 100000000 := by
+    have e : toReal t - (2 * Ls - 1) = (toReal t - (2 * L + -1)) + 2 * (L - Ls) := by ring
+    rw [e]
+    have t1 := abs_add_le (toReal t - (2 * L + -1)) (2 * (L - Ls))
+    have t2 : |2 * (L - Ls)| = 2 * |L - Ls| := by rw [abs_mul]; norm_num
+    linarith
+  have habs : abs (|toReal t| - |2 * Ls - 1|) ≤ 33 / 100000000 := le_trans (abs_abs_sub_abs_le_abs_sub _ _) hTt
+  -- den
+  have wat : WF (F32.abs t) := abs_wf _ (fma_wf _ _ _)
+  set Ds := 1 - |2 * Ls - 1| with hDs
+  have hDs2 : 2 / 100 ≤ Ds := by
+    rw [hDs]; have : |2 * Ls - 1| ≤ 98 / 100 := by rw [abs_le]; constructor <;> linarith [hL.1, hL.2]
+    linarith
+  have hDs1 : Ds ≤ 1 := by rw [hDs]; linarith [abs_nonneg (2 * Ls - 1)]
+  obtain ⟨a1, a2⟩ := abs_le.mp habs
+  have hfitd : |toReal (0x3f800000 : Nat) - toReal (F32.abs t)| < (2:ℝ) ^ (127:ℤ) :=
+    fit1 _ (by rw [f1.2, vat, abs_le]; constructor <;> linarith [abs_nonneg (toReal t), abs_nonneg (2 * Ls - 1)])
+  obtain ⟨fden, eden⟩ := sub_val 0x3f800000 (F32.abs t) wat f1.1 fat hfitd
+  rw [f1.2, vat] at eden
+  set den := F32.sub 0x3f800000 (F32.abs t)
+  have hd1 : abs (1 - |toReal t|) ≤ 1 := by rw [abs_le]; constructor <;> linarith [abs_nonneg (toReal t), abs_nonneg (2 * Ls - 1)]
+  have hd2 : u * abs (1 - |toReal t|) ≤ u * 1 := mul_le_mul_of_nonneg_left hd1 u_pos.le
+  rw [hu] at hd2 eden
+  have hden : |toReal den - Ds| ≤ 4 / 10000000 := by
+    have e : toReal den - Ds = (toReal den - (1 - |toReal t|)) - (|toReal t| - |2 * Ls - 1|) := by rw [hDs]; ring
+    rw [e]
+    have := abs_sub (toReal den - (1 - |toReal t|)) (|toReal t| - |2 * Ls - 1|)
+    linarith
+  obtain ⟨dd1, dd2⟩ := abs_le.mp hden
+  have hdpos : 0 < toReal den := by linarith
+  -- num
+  have hMx1 : toReal xmax ≤ 1 := by rw [vM]; exact b2
+  have hMx0 : 0 ≤ toReal xmax := by rw [vM]; linarith
+  have hfitn : |toReal xmax - L| < (2:ℝ) ^ (127:ℤ) := fit1 _ (by rw [abs_le]; constructor <;> linarith)
+  obtain ⟨fvl, evl⟩ := sub_val xmax l wl fM fL hfitn
+  set vl := F32.sub xmax l
+  have hv1 : |toReal xmax - L| ≤ 1 := by rw [abs_le]; constructor <;> linarith
+  have hv2 : u * |toReal xmax - L| ≤ u * 1 := mul_le_mul_of_nonneg_left hv1 u_pos.le
+  rw [hu] at hv2 evl
+  have bvl : Bnd vl (11 / 10) := ⟨fvl, by have := abs_sub_abs_le_abs_sub (toReal vl) (toReal xmax - L); linarith⟩
+  obtain ⟨bnum, enum⟩ := mul_bnd 0x40000000 vl 2 (11 / 10) ⟨f2.1, by rw [f2.2]; norm_num⟩ bvl (fit_small _ (by norm_num))
+  rw [f2.2, hu] at enum
+  set num := F32.mul 0x40000000 vl
+  set Cs := Mx - Mn with hCs
+  have hCs0 : 0 ≤ Cs := by rw [hCs]; linarith
+  have hnum : |toReal num - Cs| ≤ 6 / 10000000 := by
+    have e : toReal num - Cs = (toReal num - 2 * toReal vl) + 2 * (toReal vl - (toReal xmax - L)) - 2 * (L - Ls) := by rw [hCs, vM, hLsd]; ring
+    rw [e]
+    have t1 := abs_sub ((toReal num - 2 * toReal vl) + 2 * (toReal vl - (toReal xmax - L))) (2 * (L - Ls))
+    have t2 := abs_add_le (toReal num - 2 * toReal vl) (2 * (toReal vl - (toReal xmax - L)))
+    have t3 : |2 * (toReal vl - (toReal xmax - L))| = 2 * |toReal vl - (toReal xmax - L)| := by rw [abs_mul]; norm_num
+    have t4 : |2 * (L - Ls)| = 2 * |L - Ls| := by rw [abs_mul]; norm_num
+    linarith
+  obtain ⟨n1, n2⟩ := abs_le.mp hnum
+  -- C ≤ D (exact saturation at most 1)
+  have hCD : Cs ≤ Ds := by
+    rw [hCs, hDs, hLsd]
+    rcases le_total 0 (2 * ((Mx + Mn) / 2) - 1) with h | h
+    · rw [abs_of_nonneg h]; linarith
+    · rw [abs_of_nonpos h]; linarith
+  -- quotient
+  have hq : |toReal num / toReal den - Cs / Ds| ≤ 6 / 100000 := by
+    have hDpos : 0 < Ds := by linarith
+    have e : toReal num / toReal den - Cs / Ds = ((toReal num - Cs) * Ds - Cs * (toReal den - Ds)) / (toReal den * Ds) := by field_simp; ring
+    rw [e, abs_div, abs_of_pos (mul_pos hdpos hDpos), div_le_iff₀ (mul_pos hdpos hDpos)]
+    have t1 := abs_sub ((toReal num - Cs) * Ds) (Cs * (toReal den - Ds))
+    have t2 : |(toReal num - Cs) * Ds| ≤ 6 / 10000000 * Ds := by rw [abs_mul, abs_of_pos hDpos]; exact mul_le_mul_of_nonneg_right hnum hDpos.le
+    have t3 : |Cs * (toReal den - Ds)| ≤ Cs * (4 / 10000000) := by rw [abs_mul, abs_of_nonneg hCs0]; exact mul_le_mul_of_nonneg_left hden hCs0
+    nlinarith
+  have hqabs : |toReal num / toReal den| ≤ 2 := by
+    have hDpos : 0 < Ds := by linarith
+    have : Cs / Ds ≤ 1 := by rw [div_le_one hDpos]; exact hCD
+    have : 0 ≤ Cs / Ds := div_nonneg hCs0 hDpos.le
+    obtain ⟨q1, q2⟩ := abs_le.mp hq
+    rw [abs_le]; constructor <;> linarith
+  have hqfit : |toReal num / toReal den| ≤ (2:ℝ) ^ (126:ℤ) := by
+    have : (2:ℝ) ^ (1:ℤ) ≤ (2:ℝ) ^ (126:ℤ) := zpow_le_zpow_right₀ (by norm_num) (by norm_num)
+    refine le_trans hqabs (le_trans (by norm_num) this)
+  obtain ⟨fq, eq'⟩ := div_val num den bnum.1 fden hdpos.ne' hqfit
+  have hud : ud ≤ 61 / 1000000000 := by unfold ud; rw [hu]; norm_num
+  have hud0 := ud_pos
+  have hqe : |toReal (F32.div num den) - Cs / Ds| ≤ 7 / 100000 := by
+    have t := abs_sub_le (toReal (F32.div num den)) (toReal num / toReal den) (Cs / Ds)
+    have : ud * |toReal num / toReal den| ≤ 61 / 1000000000 * 2 := mul_le_mul hud hqabs (abs_nonneg _) (by norm_num)
+    linarith
+  -- min with 1
+  obtain ⟨_, vmn⟩ := min_val (F32.div num den) 0x3f800000 fq f1.1
+  rw [vmn, f1.2]
+  have hS1 : specS (toReal p.x) (toReal p.y) (toReal p.z) = Cs / Ds := rfl
+  rw [hS1]
+  have hDpos : 0 < Ds := by linarith
+  have hsle : Cs / Ds ≤ 1 := by rw [div_le_one hDpos]; exact hCD
+  obtain ⟨q1, q2⟩ := abs_le.mp hqe
+  rw [abs_le]; constructor
+  · have := min_le_left (toReal (F32.div num den)) 1
+    rcases le_total (toReal (F32.div num den)) 1 with h | h
+    · rw [min_eq_left h]; linarith
+    · rw [min_eq_right h]; linarith
+  · have := min_le_left (toReal (F32.div num den)) 1
+    linarith
+
 end C17
